@@ -30,6 +30,20 @@ type Ctrl struct {
 // Close records the close event.
 func (c *Ctrl) Close() error { return c.inst.close() }
 
+// TCtrl is a TRANSIENT controller: every Handle wrapper a request passes is a resolution of its
+// own and gets a fresh instance built in the request's scope.
+type TCtrl struct {
+	*inst
+	shared *Shared
+}
+
+// Close records the close event.
+func (c *TCtrl) Close() error { return c.inst.close() }
+
+func newTCtrl(sc godi.Scope, sh *Shared) *TCtrl { // a transient may not depend on the scoped ReqSvc
+	return &TCtrl{inst: cur.Load().newInst("TCtrl", sc), shared: sh}
+}
+
 // FailCtrl is a controller whose constructor always fails (after its dependency was built).
 type FailCtrl struct{ *inst }
 
@@ -66,6 +80,9 @@ func buildProvider() (godi.Provider, error) {
 		return nil, err
 	}
 	if err := c.AddScoped(newFailCtrl); err != nil {
+		return nil, err
+	}
+	if err := c.AddTransient(newTCtrl); err != nil {
 		return nil, err
 	}
 	return c.Build()
